@@ -1,6 +1,7 @@
 package lua
 
 import (
+	"math"
 	"reflect"
 	"unsafe"
 )
@@ -57,7 +58,10 @@ func newAllocator(size int) *allocator {
 func (al *allocator) LNumber2I(v LNumber) LValue {
 	// first check for shared preloaded numbers
 	if v >= 0 && v < preloadLimit && float64(v) == float64(int64(v)) {
-		return preloads[int(v)]
+		// -0 is not the preloaded 0: 1/(0*-1) must be -Inf
+		if v != 0 || !math.Signbit(float64(v)) {
+			return preloads[int(v)]
+		}
 	}
 
 	// check if we need a new alloc page
